@@ -80,7 +80,8 @@ func (t *TargetsMetadata) AddRule(ruleName string, authorizedPrincipalIDs, ruleP
 		return tuf.ErrInvalidThreshold
 	}
 
-	if len(authorizedPrincipalIDs) < threshold {
+	if set.NewSetFromItems(authorizedPrincipalIDs...).Len() < threshold {
+		// the same principal listed twice can only be counted once
 		return tuf.ErrCannotMeetThreshold
 	}
 
@@ -119,7 +120,8 @@ func (t *TargetsMetadata) UpdateRule(ruleName string, authorizedPrincipalIDs, ru
 		return tuf.ErrInvalidThreshold
 	}
 
-	if len(authorizedPrincipalIDs) < threshold {
+	if set.NewSetFromItems(authorizedPrincipalIDs...).Len() < threshold {
+		// the same principal listed twice can only be counted once
 		return tuf.ErrCannotMeetThreshold
 	}
 
